@@ -600,3 +600,41 @@ def show_iso(v):
     m, t = v
     return ("(mkIso (mkM3 " + " ".join(show(m[i][j]) for i in range(3) for j in range(3)) + ") (mkV3 "
             + " ".join(show(x) for x in t) + "))")
+
+
+# ------------------------------------------------------------------ definedness (NaN / inf propagation)
+def def_cond(s, letnames):
+    """Gallina bool: the f64 value of scalar tree s is finite given finite inputs (sqrt of a negative, acos out of
+    [-1,1] and division by zero are the only sources of NaN/inf in the translated subset)"""
+    k = s[1]
+    if k == "num":
+        return []
+    if k == "var":
+        return [f"d_{s[2]}"] if s[2] in letnames else []
+    if k == "neg":
+        return def_cond(s[2], letnames)
+    if k in ("add", "sub", "mul"):
+        return def_cond(s[2], letnames) + def_cond(s[3], letnames)
+    if k == "div":
+        return def_cond(s[2], letnames) + def_cond(s[3], letnames) + [f"(negb (Reqb {show(s[3])} 0))"]
+    if k == "fn":
+        out = []
+        for a in s[3]:
+            out += def_cond(a, letnames)
+        if s[2] == "sqrt":
+            out.append(f"(Rleb 0 {show(s[3][0])})")
+        if s[2] == "acos":
+            out.append(f"(Rleb (-1) {show(s[3][0])})")
+            out.append(f"(Rleb {show(s[3][0])} 1)")
+        return out
+    raise Refuse(f"def_cond {k}")
+
+
+def emit_lets_defined(lets, indent="  "):
+    names = {n for n, _ in lets}
+    out = ""
+    for n, s in lets:
+        cs = def_cond(s, names)
+        cond = "true" if not cs else " && ".join(cs)
+        out += f"{indent}let {n} := {show(s)} in\n{indent}let d_{n} := ({cond})%bool in\n"
+    return out
